@@ -11,6 +11,8 @@ import (
 
 	"detsim"
 
+	"github.com/boz/kcache"
+	pkgerrors "github.com/pkg/errors"
 	apierrors "k8s.io/apimachinery/pkg/api/errors"
 	metav1 "k8s.io/apimachinery/pkg/apis/meta/v1"
 	"k8s.io/apimachinery/pkg/runtime"
@@ -153,6 +155,18 @@ func NewServer(kind string) *Server {
 
 func (s *Server) RV() int { return s.rv }
 
+// SetBaseRV moves the server's version counter (before anything is written):
+// histories right below a power of ten (the next version has one more digit)
+// or far up the 64-bit range.
+func (s *Server) SetBaseRV(n int) {
+	if n > 0 && len(s.log) == 0 {
+		s.rv = n
+	}
+}
+
+// BaseRVs is the menu scenarios draw from (0 = the default, 10).
+var BaseRVs = []int{0, 0, 0, 0, 5, 85, 95, 97, 985, 9990, 99990, 1<<31 - 20, 1<<32 - 20, 1<<53 - 20}
+
 func (s *Server) bump() {
 	close(s.chg)
 	s.chg = make(chan struct{})
@@ -247,6 +261,12 @@ func ListErrorOf(kind string) error {
 		return context.Canceled
 	case "error-deadline-bare":
 		return context.DeadlineExceeded
+	case "error-notrunning":
+		// the library's own sentinel coming back from the client (a ListClient
+		// layered on another kcache controller that has been closed)
+		return kcache.ErrNotRunning
+	case "error-notrunning-wrapped":
+		return pkgerrors.WithStack(kcache.ErrNotRunning)
 	}
 	return ErrInjectedList
 }
@@ -352,7 +372,7 @@ func (s *Server) List(ctx context.Context, opts metav1.ListOptions) (runtime.Obj
 		// a truncated / partially decoded response: content and an error
 		call.Outcome = "error"
 		return BuildList(s.Kind, rv, snap), ErrInjectedList
-	case "error-timeout", "error-canceled", "error-canceled-bare", "error-deadline-bare":
+	case "error-timeout", "error-canceled", "error-canceled-bare", "error-deadline-bare", "error-notrunning", "error-notrunning-wrapped":
 		// a failed list is fatal whatever the error value looks like - also when
 		// it is, or wraps, a context error that is not the caller's own cancellation
 		call.Outcome = "error"
